@@ -159,6 +159,30 @@ pub fn pin_all_future(root: &Path, future: Option<u64>) -> io::Result<()> {
     rec(root, root, future)
 }
 
+/// a quarter of the regular files (chosen by a hash of path and `salt`) get mode 0444, 0555 or
+/// 0000; ctime changes, mtime does not
+pub fn chmod_some(root: &Path, salt: u64) -> io::Result<()> {
+    fn rec(root: &Path, p: &Path, salt: u64) -> io::Result<()> {
+        let m = fs::symlink_metadata(p)?;
+        if m.is_dir() {
+            for e in fs::read_dir(p)? {
+                rec(root, &e?.path(), salt)?;
+            }
+        } else if m.is_file() {
+            let h = crate::rng::fnv(p.strip_prefix(root).unwrap_or(p).as_os_str().as_bytes()) ^ salt.rotate_left(17);
+            if h % 4 == 0 {
+                let mode = [0o444, 0o555, 0o000, 0o444][((h >> 8) % 4) as usize];
+                let c = CString::new(p.as_os_str().as_bytes()).unwrap();
+                if unsafe { libc::chmod(c.as_ptr(), mode) } != 0 {
+                    return Err(io::Error::last_os_error());
+                }
+            }
+        }
+        Ok(())
+    }
+    rec(root, root, salt)
+}
+
 pub fn snapshot(root: &Path) -> io::Result<Snapshot> {
     fn rec(root: &Path, p: &Path, out: &mut Snapshot) -> io::Result<()> {
         for e in fs::read_dir(p)? {
